@@ -35,6 +35,20 @@ func AsSafeValue(i any) *Value {
 	}
 }
 
+// structFieldByName is reflect.Value.FieldByName without its panic for a field that
+// is promoted from an embedded pointer which is nil: such a field does not exist.
+func structFieldByName(v reflect.Value, name string) reflect.Value {
+	field, ok := v.Type().FieldByName(name)
+	if !ok {
+		return reflect.Value{}
+	}
+	fieldValue, err := v.FieldByIndexErr(field.Index)
+	if err != nil {
+		return reflect.Value{}
+	}
+	return fieldValue
+}
+
 func (v *Value) getResolvedValue() reflect.Value {
 	if v.val.IsValid() && v.val.Kind() == reflect.Ptr {
 		return v.val.Elem()
@@ -346,7 +360,7 @@ func (v *Value) Contains(other *Value) bool {
 	baseValue := v.getResolvedValue()
 	switch baseValue.Kind() {
 	case reflect.Struct:
-		fieldValue := baseValue.FieldByName(other.String())
+		fieldValue := structFieldByName(baseValue, other.String())
 		return fieldValue.IsValid()
 	case reflect.Map:
 		// We can't check against invalid types
